@@ -47,3 +47,33 @@ Definition pointwise_spec (pred : nat -> Z -> R) (n_mech : nat) (ks : list ekind
    `den` is the common denominator by which the case's times were scaled to integers. *)
 Definition toy_out (th : list R) (den : R) (o : nat) (t : Z) : R :=
   nth 0 th 0 * (1 + INR o) + nth 1 th 0 * (IZR t / den) + nth 2 th 0 * (IZR t / den) * (IZR t / den) * INR o.
+
+(* ---------------- a toy model with any number of parameters (harness/toy.py PolyToyModel) ---------------- *)
+Definition ptoy_w (den : R) (k o : nat) (t : Z) : R := 1 + INR k * (IZR t / den) + INR o.
+Definition ptoy_out (th : list R) (den : R) (o : nat) (t : Z) : R :=
+  Rsum (map (fun kp => snd kp * ptoy_w den (fst kp) o t) (combine (seq 0 (length th)) th)).
+
+(* ---------------- LogLikelihood.evaluateS1: score and gradient ---------------- *)
+Definition em_S1 (k : ekind) (p ms ys : list R) (cols : list (list R)) : score * list R :=
+  match k with
+  | KG => G_S1 (nth 0 p 0) ms ys cols
+  | KMG => MG_S1 (nth 0 p 0) ms ys cols
+  | KCMG => CMG_S1 (nth 0 p 0) (nth 1 p 0) ms ys cols
+  | KLN => LN_S1 (nth 0 p 0) ms ys cols
+  end.
+Fixpoint vadd (a b : list R) : list R :=
+  match a, b with x :: a', y :: b' => (x + y) :: vadd a' b' | _, [] => a | [], _ => b end.
+(* sens k o t = d(output o at time t)/d(mechanistic parameter k); specification level: every output's error
+   model sees the predictions and output sensitivities at its own times *)
+Definition ll_S1_spec (pred : nat -> Z -> R) (sens : nat -> nat -> Z -> R) (n_mech : nat) (ks : list ekind)
+           (ts : list (list Z)) (obs : list (list R)) (th : list R) : score * list R :=
+  let outs := map (fun kc : nat * (ekind * call R R) =>
+                     let o := fst kc in
+                     let k := fst (snd kc) in
+                     let c := snd (snd kc) in
+                     em_S1 k (fst (fst c)) (snd (fst c)) (snd c)
+                           (map (fun j => map (sens j o) (nth o ts [])) (seq 0 n_mech)))
+                  (combine (seq 0 (length ks)) (combine ks (calls_spec pred n_mech (map n_err ks) ts obs th))) in
+  (ssum (map fst outs),
+   fold_right vadd [] (map (fun sg => firstn n_mech (snd sg)) outs)
+   ++ concat (map (fun sg => skipn n_mech (snd sg)) outs)).
